@@ -19,7 +19,7 @@ RULE = ("a case = a simulated network of 1..4 hosts, each listening on 6445 or 2
         "reply built by the reference (48-bit id, port, serial number, name net_<type>_<suffix>, reported IP equal to or different from "
         "the source); discover_single is called with the dotted address or with a host name that resolves to the host; name and trailer lengths cover every residue of the payload length modulo 16. Oracle: Discover.discover()/discover_single() returns exactly one device per host with id, port, sn, name, type "
         "(from the name), version as encoded and ip = the datagram's source address; class AirConditioner iff type 0xAC, else generic "
-        "Device; with auto_connect a V2 air conditioner is refreshed over TCP at the advertised port. discovery_packets in {1,2,3,5} and timeout in {1,5} with one host on each port; 2-4 discover_single calls (and optionally a broadcast discovery) in flight at overlapping times. Exhaustive: all 256 type bytes in "
+        "Device; with auto_connect a V2 air conditioner is refreshed over TCP at the advertised port. discovery_packets in {1,2,3,5} and timeout in {1,5} with one host on each port; the first one or two probes to every host lost; names whose last part contains further underscores; auto-connect to a device that accepts TCP and never answers with listening windows of 1/2/5 s (the device must still be reported); 2-4 discover_single calls (and optionally a broadcast discovery) in flight at overlapping times. Exhaustive: all 256 type bytes in "
         "both hex cases, boundary ids and ports, both versions, both listening ports. distinct = (reply fields); all non-trivial")
 ASSUMPTIONS = ["a real device ignores header filler of the probe but not its length field, type bytes, signature or payload",
                "serial numbers and names are ASCII"]
@@ -86,6 +86,26 @@ def generate(ctx, rng):
                     yield ("packets", pk, listen, version, tmo), {"mode": "broadcast", "auto": False, "packets": pk, "timeout": tmo,
                           "hosts": [_host(rng, "10.7.0.%d" % (1 + n % 200), listen=listen, version=version),
                                     _host(rng, "10.7.1.%d" % (1 + n % 200), listen=26531 - listen, version=5 - version)]}
+    # UDP loss: the first one or two probes to a host never arrive (the default is three probes per port)
+    for lose in (1, 2):
+        for listen in (6445, 20086):
+            for version in (2, 3):
+                for pk in (None, 5, lose + 1):
+                    n += 1
+                    yield ("lost", lose, listen, version, pk), {"mode": "broadcast", "auto": False, "packets": pk, "lose_first": lose,
+                          "hosts": [_host(rng, "10.9.0.%d" % (1 + n % 200), listen=listen, version=version, dups=1),
+                                    _host(rng, "10.9.1.%d" % (1 + n % 200), listen=26531 - listen, dups=1)]}
+    # names whose last part contains further separators
+    for j, suffix in enumerate(["1F_B4", "AC_01", "my_room", "_", "A__B", "00_ac_00", "e1_AC"]):
+        for version in (2, 3):
+            for t in (0xAC, 0xE1, 0x1F):
+                n += 1
+                yield ("suffix", j, version, t), {"mode": "broadcast", "auto": False,
+                                                  "hosts": [_host(rng, "10.10.0.%d" % (1 + n % 200), suffix=suffix, version=version, type=t)]}
+    # auto-connect to a device that accepts the TCP connection and never answers, with short listening windows
+    for j in range(12 if quick else 300):
+        h = _host(rng, "10.11.0.%d" % (1 + j % 200), version=2, type=0xAC, port=6444, dups=1)
+        yield ("auto-silent", j), {"mode": ["broadcast", "single"][j % 2], "auto": True, "hosts": [h], "timeout": [1, 2, 5][j % 3], "silent_tcp": True}
     # several discoveries in flight at the same time (an application looking for its configured devices in parallel)
     for j in range(60 if quick else 2500):
         k = rng.randint(2, 4)
@@ -115,9 +135,12 @@ def run_case(ctx, case):
         reply = D.build_reply(h["version"], h["id"], payload)
         replies = [(0.05 * (i + 1) + 0.3 * d, None, reply) for d in range(h["dups"])]
         sims.append(SimHost(net, h["ip"], h["listen"], replies, names=([target] if (target and i == 0) else ()),
-                            answer_every=case["mode"] == "overlap"))     # several askers: the device answers each of them
+                            answer_every=case["mode"] == "overlap",      # several askers: the device answers each of them
+                            lose_first=case.get("lose_first", 0)))
         if case["auto"]:
             tcp[h["ip"]] = SimDevice(net, host=h["ip"], port=h["port"], version=2, device_id=h["id"], ac=ACModel({"target_temperature": 26.5, "power": True}))
+            if case.get("silent_tcp"):
+                tcp[h["ip"]].on_exchange = lambda conn, req, packets, meta: []
 
     kw = {}
     if case.get("packets") is not None:
@@ -142,7 +165,7 @@ def run_case(ctx, case):
             return [dev] if dev is not None else []
         return await Discover.discover(auto_connect=case["auto"], **kw)
 
-    key = ("c17", case["mode"], case["auto"], case.get("target"), case.get("packets"), case.get("timeout"), tuple(case.get("starts") or ()), tuple((h["ip"], h["version"], h["id"], h["port"], h["sn"], _name(h), h["listen"]) for h in hosts))
+    key = ("c17", case["mode"], case["auto"], case.get("target"), case.get("packets"), case.get("timeout"), case.get("lose_first"), case.get("silent_tcp"), tuple(case.get("starts") or ()), tuple((h["ip"], h["version"], h["id"], h["port"], h["sn"], _name(h), h["listen"]) for h in hosts))
     try:
         devs, loop = H.run_virtual(go, net)
     except Exception as e:  # noqa: BLE001
@@ -191,7 +214,7 @@ def run_case(ctx, case):
         is_ac = isinstance(d, AC)
         if is_ac != (h["type"] == 0xAC) or not isinstance(d, Device):
             ctx.violation("device-class", f"type 0x{h['type']:02X} instantiated as {type(d).__name__}", case)
-        if case["auto"] and h["type"] == 0xAC:
+        if case["auto"] and h["type"] == 0xAC and not case.get("silent_tcp"):
             if not d.online or d.target_temperature != 26.5:
                 ctx.violation("auto-connect", f"auto_connect did not refresh the V2 air conditioner at {h['ip']}:{h['port']} (online={d.online})", case)
     extra = set(by_ip) - {h["ip"] for h in expect_hosts}
